@@ -61,6 +61,11 @@ CHECKS = {
          "Sequences of up to 60 operations over up to 5 users (create/remove user, verify with right/wrong/other/unknown credentials, create_session with default / already-expired / long lifetime, refresh, invalidate, invalidate_user_session, get_uid_by_token, exists, and requests to a with_auth_route route of a real App on loopback with no / garbage / any ever-issued token), with and without pepper and with default or zero refresh lifetime, are run against AuthProvider<Vec<User>> and a reference model. Every return value is predicted by the model, and after every step every token ever issued must authenticate exactly its owner iff its session is live; tokens must be 64 lower-case hex digits and never repeat.",
          "Trusts the reference model; only lifetimes 0 and >=3600 s are used so no expectation depends on the clock.",
          "DESIGN.md §5 C17"),
+ "C04": ("exploration",
+         "proptest generation of application configurations and requests, differential against a reference router over real loopback sockets",
+         "Generated applications (0..4 host sub-apps with literal / wildcard host patterns, 0..6 HTTP and 0..3 WebSocket routes each, plus a default app; patterns over a tiny segment alphabet so they overlap and shadow) are started as a real App on loopback; 30 requests each (Host absent / exact / wildcard-matching / with port / non-matching / matching several hosts; paths matching several, one or no route; optional query; plain and WebSocket upgrade). Each handler answers with its identity; a reference router built on the reference glob matcher predicts the handler by the stated rule (first matching host, first matching route in it, else first matching default route, else 404 / connection closed without upgrade).",
+         "Trusts the reference router and glob matcher. Threaded runtime only so far (tokio twin pending).",
+         "DESIGN.md §5 C04"),
 }
 
 NOT_YET = "check not built yet (work in progress; see DESIGN.md §5 for the intended design)"
